@@ -403,14 +403,14 @@ func TestC09(t *testing.T) {
 		return
 	}
 	// (b) real timers, loop parked while timers fire and responses arrive
-	vcore.Check(t, vcore.N(25, 120), func(rt *rapid.T) {
+	vcore.Check(t, vcore.N(25, 250), func(rt *rapid.T) {
 		c := genReal(rt)
 		v, s := runReal(c)
 		accountReal(c, s)
 		vcore.Report(rt, v, map[string]any{"real": c})
 	})
 	starts := []uint32{0, 1<<24 - 3, 1<<24 - 2, 1<<24 - 1, 1 << 24, 1<<24 + 1, 1<<24 + 2, 1 << 31, 1<<32 - 2, 1<<32 - 1}
-	vcore.Check(t, vcore.N(1200, 4000), func(rt *rapid.T) {
+	vcore.Check(t, vcore.N(1200, 12000), func(rt *rapid.T) {
 		c := Case{
 			MaxRetrans: uint8(rapid.IntRange(0, 3).Draw(rt, "maxretrans")),
 			StartSeq:   rapid.OneOf(rapid.SampledFrom(starts), rapid.Uint32()).Draw(rt, "start"),
